@@ -659,6 +659,30 @@ func genPipeOne(r *h.Rand, kind int) string {
 		}
 		ops += fmt.Sprintf(" ; tailwait K256.%d.0,K256.65.0 ; fini", ch)
 		return hdr([]string{"c:" + h.Hex(chunk)}, exp, expat, fmt.Sprintf("cons=poll stop=%d pend=0 post=0 draw=0", k)) + ops
+	case 14: // C12: the window changes size while the screen is suspended; after Resume, before any Show, mouse reports are
+		// clipped into the screen the terminal has NOW (grown: a cell beyond the old size; shrunk: a cell beyond the new one)
+		items := ppItems(r, r.Range(1, 4), false, 0)
+		steps, exp, expat := ppFeed(r, items, 3, 0, 0, -1)
+		nw, nh := 100+r.Intn(20), 30+r.Intn(10)
+		if r.Bool() {
+			nw, nh = 40+r.Intn(20), 10+r.Intn(8)
+		}
+		clip := func(v, n int) int {
+			if v > n-1 {
+				return n - 1
+			}
+			return v
+		}
+		var items2 []ppItem
+		for k := r.Range(2, 4); k > 0; k-- {
+			x, y := r.Range(1, 130), r.Range(1, 45)
+			items2 = append(items2, ppItem{[]byte(fmt.Sprintf("\x1b[<0;%d;%dM", x, y)), fmt.Sprintf("M%d.%d.1.0", clip(x-1, nw), clip(y-1, nh))})
+			items2 = append(items2, ppItem{[]byte(fmt.Sprintf("\x1b[<0;%d;%dm", x, y)), fmt.Sprintf("M%d.%d.0.0", clip(x-1, nw), clip(y-1, nh))})
+		}
+		items2 = append(items2, ppItems(r, 1, false, 70)...)
+		steps2, exp2, _ := ppFeed(r, items2, 4, 0, 0, -1)
+		ops := fmt.Sprintf(" ; wait stall ; suspend ; resize %d %d ; resume ; more ; check2 ; fini", nw, nh)
+		return hdr(steps, exp, expat, fmt.Sprintf("feed2=%s exp2=%s cons=%s stop=-1 pend=0 post=0 draw=0", ppJoin(steps2), ppJoin(exp2), ppCons(r))) + ops
 	case 10: // real time: an incomplete sequence read in 2..3 pieces a few ms apart, then silence; then a complete key
 		pre := h.Pick(r, [][]string{{"1b", "5b"}, {"1b", "4f"}, {"1b", "1b"}, {"1b", "5b", "31"}, {"1b", "5b31", "3b"}, {"1b5b", "31"}, {"1b", "5b3c"}, {"1b", "5b", "32"},
 			{"1b", "5b32", "30"}, {"1b", "5d"}, {"1b", "50"}, {"1b5b31", "3b35"}, {"1b", "1b", "5b"}, {"1b", "5b", "3c33"}, {"61", "1b", "5b"}, {"1b", "5b33"}})
@@ -750,6 +774,9 @@ func genPipePaste(g *h.Gen) {
 func genPipeMouse(g *h.Gen) {
 	for i := g.N(30, 400); i > 0; i-- {
 		g.Emit("%s", genPipeOne(g.R, 12))
+	}
+	for i := g.N(12, 200); i > 0; i-- {
+		g.Emit("%s", genPipeOne(g.R, 14))
 	}
 	ppLines = append(ppLines, g.Lines...)
 }
